@@ -371,8 +371,9 @@ func c14b(c *Ctx) {
 		c.add(Result{Instance: f.Name + " update operands", Verdict: Discharged, Evals: 5, Sites: []string{upd[0].Pos()}, Detail: "updateCheckpoint(c.Origin, oldSize, c.N, c.Hash, proof, n)"})
 	}
 	// old size canonical and non-negative
-	oldObj := objOf(info, argByName(info, call, "oldSize"))
-	isOld := func(e ast.Expr) bool { return objOf(info, e) == oldObj }
+	// (compared up to plain copies: the guard may test the variable the value was parsed into)
+	oldObj := objOf(info, f.copyRoot(argByName(info, call, "oldSize")))
+	isOld := func(e ast.Expr) bool { return oldObj != nil && objOf(info, f.copyRoot(e)) == oldObj }
 	isZero := func(e ast.Expr) bool { v, ok := constInt(info, e); return ok && v == 0 }
 	c.guardSuccess(f, "old size >= 0", g.EdgesImplying(func(a Atom) bool {
 		rel, ok := cmpRel(a, isOld, isZero)
